@@ -594,10 +594,16 @@ def brle_gather_1d(brle_data, indices):
 
 def brle_reverse(brle_data):
     """Equivalent to dense_to_brle(brle_to_dense(brle_data)[-1::-1])."""
+    brle_data = np.asarray(brle_data)
     if len(brle_data) % 2 == 0:
+        # data ends on a run of True so the reversed data starts
+        # on one and needs a zero length run of False before it
         brle_data = np.concatenate([brle_data, [0]], axis=0)
-    end = -1 if brle_data[-1] == 0 else None
-    return brle_data[-1:end:-1]
+    reversed_data = brle_data[::-1]
+    if len(reversed_data) > 1 and reversed_data[-1] == 0:
+        # a trailing zero length run of False is redundant
+        reversed_data = reversed_data[:-1]
+    return reversed_data
 
 
 def rle_reverse(rle_data):
